@@ -513,7 +513,10 @@ func init() {
 					if only, ok := args["format"]; ok && only != f {
 						continue
 					}
-					c := lab.AddCase(d, f)
+					// C11 only needs the Go decoder: Equals/Validate are switched off for part of the
+					// terms, so that a Go package which only fails to compile in those methods still
+					// shows its wire behaviour (coordinator edit)
+					c := lab.AddCaseWith(d, f, labFlagMix(i, defaultGoFlags()), false, false)
 					cases = append(cases, c)
 					if c.Defs == nil {
 						continue
@@ -632,8 +635,14 @@ func init() {
 			if pinOf[c.ID] != "" {
 				pin = " pin=" + pinOf[c.ID]
 			}
-			fmt.Fprintf(out, "-\tcase %s format=%s%s go=%v sameIR=%v degraded=%v notes=%v src=%s\tok\n", c.ID, c.Format, pin, c.GoOK,
-				virSchemas(c.IRPy) == virSchemas(c.IRGo), c.Degraded, c.Notes, c.Defs.sexp())
+			goVerdict := "ok"
+			if !c.GoOK && c.generated() && pinOf[c.ID] == "" {
+				// the run reported success but the generated Go does not compile: the Go SDK can
+				// not read what the Python SDK writes (coordinator edit)
+				goVerdict = "FAIL generated-go-does-not-compile case=" + c.ID + " format=" + c.Format + " " + labOneLine(labFirstLine(c.GoCompileErr))
+			}
+			fmt.Fprintf(out, "-\tcase %s format=%s%s go=%v sameIR=%v degraded=%v notes=%v src=%s\t%s\n", c.ID, c.Format, pin, c.GoOK,
+				virSchemas(c.IRPy) == virSchemas(c.IRGo), c.Degraded, c.Notes, c.Defs.sexp(), goVerdict)
 			if c.IRPyErr != "" {
 				fmt.Fprintf(out, "-\tskip %s no-python-ir %s\tok\n", c.ID, labOneLine(c.IRPyErr))
 			}
